@@ -138,8 +138,14 @@ def release_guard_preds(sem, vis, key, readers):
     def is_entry(x, resolve=None):
         """x is read(key)!ok (the entry of this iteration)"""
         x = w.ident(x, expand_ws=False)
-        if x.op == "proj":
-            x = x.args[0]
+        for _ in range(4):
+            # read(key)?, read(key).ok()?, if let Some(h) = read(key).ok() ...
+            if x.op == "proj" and x.args:
+                x = w.ident(x.args[0], expand_ws=False)
+            elif x.op == "call" and x.info == "std::result::Result::ok" and len(x.args) == 1:
+                x = w.ident(x.args[0], expand_ws=False)
+            else:
+                break
         return x.op == "call" and x.info in readers and w.ident(x.args[1], expand_ws=False) == kid
 
     def exists(f, resolve):
